@@ -919,6 +919,89 @@ def corpus_cases():
     return out
 
 
+def directed(kind, script, salt=0):
+    """Build an event list by driving the real object in lock step (request ids / timer ids are read off the harness-owned
+    pending sets).  script items: ("start",) ("stop",) ("tick",) ("fire_all",) ("fire_first",) ("reply", reqkind, res[, extra...])
+    ("cfail", k) [first running consumer that is not shutting down] ("cshut_all", 0|1)"""
+    logging.getLogger("afkak").setLevel(logging.CRITICAL + 1)
+    im = Impl(kind, salt=salt)
+    evs = []
+
+    def do(ev):
+        evs.append(ev)
+        im.apply(ev)
+    try:
+        for it in script:
+            op = it[0]
+            if op == "start":
+                do((E_START,))
+            elif op == "stop":
+                do((E_STOP,))
+            elif op == "tick":
+                do((E_TICK,))
+            elif op == "fire_all":
+                for t in im.active_join_timers():
+                    do((E_FIRE, t))
+            elif op == "fire_first":
+                ts = im.active_join_timers()
+                if ts:
+                    do((E_FIRE, ts[0]))
+            elif op == "cfail":
+                live = [c for c in im.consumers if c.can_fail_start() and not c.shutdown_pending()]
+                if live:
+                    do((E_CFAIL, live[0].cid, it[1]))
+            elif op == "cshut_all":
+                for c in list(im.consumers):
+                    if c.shutdown_pending():
+                        do((E_CSHUT, c.cid, it[1]))
+            elif op == "reply":
+                rk, res = it[1], it[2]
+                pend = [rid for rid, k in im.pending_requests() if k == rk]
+                if not pend:
+                    continue
+                rid = pend[0]
+                code = {"lookup": E_LOOKUP, "meta": E_META, "join": E_JOIN, "parts": E_PARTS, "sync": E_SYNC, "hb": E_HBREPLY, "leave": E_LEAVE}[rk]
+                if rk == "join":
+                    do((code, rid, res) + tuple(it[3:6]))
+                elif rk == "sync":
+                    do((code, rid, res, list(it[3])))
+                else:
+                    do((code, rid, res))
+        return evs
+    finally:
+        im.close()
+
+
+def stale_timer_family():
+    """Directed histories: a rejoin timer is armed by X while join J is in flight (X = the slow heartbeat failing, or nothing);
+    J completes - the member is stable again with that timer still armed; LATER a retriable error Y arrives (heartbeat reply or
+    consumer error); then every armed call fires and the looper ticks.  One history per (X, Y): the state "rejoin needed and a stale
+    call armed" is where a lost `_rejoin_needed` strands the member."""
+    out = []
+    xs = [None, K_TIMEOUT, K_REBALANCE, K_ILLGEN, K_OTHERKAFKA, K_CNA]
+    ys = [("hb", K_REBALANCE), ("hb", K_ILLGEN), ("hb", K_UNKMEMBER), ("hb", K_TIMEOUT), ("hb", K_NOTCOORD), ("hb", K_OTHERKAFKA),
+          ("cfail", K_REBALANCE), ("cfail", K_ILLGEN), ("cfail", K_UNKMEMBER), ("cfail", K_TIMEOUT), ("cfail", K_INCONSISTENT)]
+    for x in xs:
+        for ysite, yk in ys:
+            sc = [("start",), ("reply", "lookup", 0), ("reply", "meta", 0), ("reply", "join", 0, 1, 1, 0), ("reply", "sync", 0, [(0, 0)]),
+                  ("tick",),                                   # heartbeat h in flight (slow)
+                  ("cfail", K_REBALANCE), ("fire_first",),       # a consumer error starts a rejoin
+                  ("reply", "lookup", 0), ("reply", "meta", 0), ("cshut_all", 0)]      # ... JoinGroup J in flight
+            if x is not None:
+                sc.append(("reply", "hb", 100 + x))              # X: the slow heartbeat fails while J is in flight: arms a call
+            else:
+                sc.append(("reply", "hb", 0))
+            sc += [("reply", "join", 0, 2, 1, 0), ("reply", "sync", 0, [(0, 0), (0, 1)])]      # J completes: stable, the call still armed
+            if ysite == "hb":
+                sc += [("tick",), ("reply", "hb", 100 + yk)]
+            else:
+                sc += [("cfail", yk)]
+            sc += [("fire_all",), ("tick",), ("fire_all",), ("reply", "lookup", 0), ("reply", "meta", 0), ("cshut_all", 0),
+                   ("reply", "join", 0, 3, 1, 0), ("reply", "sync", 0, [(0, 0)]), ("tick",), ("reply", "hb", 0)]
+            out.append((1, directed(1, sc), 0))
+    return out
+
+
 def doc_delay(k):
     return 1 if k in (K_REBALANCE, K_CNA, K_NOTCOORD, K_ILLGEN, K_INVGROUP, K_UNKMEMBER) else 2
 
@@ -1196,6 +1279,7 @@ def check_histories(ck, monitor, tied, model="group", module="Model.GroupObs"):
     thorough = ck.tier == "thorough"
     n_gen = 12000 if thorough else 700
     histories = [(k, evs, "corpus", salt) for k, evs, salt in corpus_cases()]
+    histories += [(k, evs, "directed:stale-timer-family", salt) for k, evs, salt in stale_timer_family()]
     for _ in range(n_gen):
         kind, evs, _, _, salt = gen_history(rnd)
         histories.append((kind, evs, "generated", salt))
